@@ -178,9 +178,10 @@ def uniformity_test(t, mask, lv):
 
 def r2(ctx):
     f = ctx.fn("retrospective.reveal_plates")
-    sites = [s for s in common.screen_sites(ctx) if s.f.qname == f.qname]
-    ctx.need(len(sites) == 1, f"reveal_plates: expected one Screen(...) construction, found {len(sites)}")
-    s = sites[0]
+    class _S:
+        pass
+    s = _S()
+    s.kw, s.site = common.returned_screen_kw(ctx, f)
     S, ids = f.params[0], f.params[1]
     env = single_defs(f.node)
     N = Norm(env=env, strict=False)
@@ -229,8 +230,12 @@ def r2(ctx):
 def r3(ctx):
     for fn, ctor in (("retrospective.mask_screen", "np.zeros"), ("retrospective.unmask_screen", "np.ones")):
         f = ctx.fn(fn)
-        sites = [s for s in common.screen_sites(ctx) if s.f.qname == f.qname]
-        ctx.need(len(sites) == 1, f"{fn}: expected one Screen(...) construction")
+        kw, site = common.returned_screen_kw(ctx, f)
+
+        class _S:
+            pass
+        sites = [_S()]
+        sites[0].kw, sites[0].site = kw, site
         S = f.params[0]
         m = sites[0].kw.get("observation_mask")
         env = single_defs(f.node)
